@@ -433,7 +433,10 @@ class Type1Tag(Tag):
             raise ValueError("invalid block number")
         log.debug("read block {0}".format(block))
         cmd = bytearray([0x02, block] + [0x00 for _ in range(8)]) + self.uid
-        return self.transceive(cmd)[1:9]
+        rsp = self.transceive(cmd)
+        if len(rsp) < 9:
+            raise Type1TagCommandError(RESPONSE_ERROR)
+        return rsp[1:9]
 
     def read_segment(self, segment):
         """Read one memory segment (128 byte).
@@ -541,6 +544,8 @@ class Type1TagMemoryReader(object):
     def _read_from_tag(self, stop):
         if len(self) < 120:
             read_all_data_response = self._tag.read_all()
+            if len(read_all_data_response) < 2:
+                raise Type1TagCommandError(RESPONSE_ERROR)
             self._header_rom = read_all_data_response[0:2]
             self._data_from_tag[0:] = read_all_data_response[2:]
             self._data_in_cache[0:] = self._data_from_tag[0:]
